@@ -340,8 +340,11 @@ class VirtualClock:
     def advance(self, ns):
         self.now += ns
 
+    CURRENT = None     # the clock of the run in progress (programs of the harness can let time pass: VirtualClock.CURRENT.advance)
+
     def __enter__(self):
         import importlib
+        VirtualClock.CURRENT = self
         for m in self.MODS:
             mod = importlib.import_module(m)
             if hasattr(mod, 'time_ns'):
